@@ -166,13 +166,13 @@ where
         if let Some(tns) = self.target_namespace.as_ref().filter(|_| !self.is_attribute) {
             writeln!(
                 writer,
-                "    #[yaserde(prefix = \"{}\", rename = \"{}\"{attribute_header})]",
+                "    #[yaserde(prefix = {:?}, rename = {:?}{attribute_header})]",
                 tns.abbreviation, self.xml_name
             )?;
         } else {
             writeln!(
                 writer,
-                "    #[yaserde(rename = \"{}\"{attribute_header})]",
+                "    #[yaserde(rename = {:?}{attribute_header})]",
                 self.xml_name
             )?;
         }
